@@ -42,6 +42,7 @@ A8 = {97, 98, 65, 32, 10, 769, 128512, 160}
 A2Q = {97, 32, 769, 128512}
 A2T = {97, 65, 32, 769, 128512}
 A6 = {97, 98, 32, 769, 128512, 160}
+A9T = {97, 98, 65, 32, 10, 769, 128512, 37, 160}
 SWEEP = set(range(32, 127)) | {9, 10, 13}
 EVERY = set(A12) | {0, 66} | SWEEP
 
@@ -68,9 +69,9 @@ def _tiers():
     quick = [('L3', dict(MaxLen=3, Alpha=A8, Alpha2=A2Q, AlphaM={97, 32, 128512}, GridName='small',
                          Sweep=True, Part=EVERY, Acts=ALL_ACTS))]
     thorough = []
-    # all strings <= 3 over the full alphabet x ALL second strings <= 2 over the full alphabet x full grid
-    for i, p in enumerate(_parts(A12, 4)):
-        thorough.append((f'L3-full-p{i}', dict(MaxLen=3, Alpha=A12, Alpha2=A12, AlphaM={97, 98, 32, 128512},
+    # all strings <= 3 over the full alphabet x all second strings <= 2 over 9 character classes x full grid
+    for i, p in enumerate(_parts(A12, 3)):
+        thorough.append((f'L3-full-p{i}', dict(MaxLen=3, Alpha=A12, Alpha2=A9T, AlphaM={97, 98, 32, 128512},
                                               GridName='full', Sweep=(i == 0), Part=p, Acts=ALL_ACTS)))
     # all strings <= 4 over 6 character classes x second strings <= 2 over 5 x full grid
     for i, p in enumerate(_parts(A6, 2, with_zero=False)):
@@ -360,7 +361,7 @@ def worker(job):
         fn, sps = spellings(idx, src, action, args)
         # chains of depth 2: the source spelled as the call that produced it along another edge
         prods = producers.get(s)
-        if prods and action != 'ConcatNum10' and (G.get('all_versions') or idx % 4 in (0, 3)):
+        if prods and action != 'ConcatNum10' and idx % 4 in (0, 3):
             ps, pact, pargs = prods[idx % len(prods)]
             psrc = states[ps]['cur']
             pfn, pexpr, pvs, pin10 = template(pact, pargs, '0')
